@@ -21,6 +21,8 @@ func init() {
 		{"method-union-writes-b", "sortints/sorted_ints.go", "\ti := len(a) - 1   //Position in a", "\tif len(b) > 0 {\n\t\tb[0] += 0\n\t}\n\ti := len(a) - 1   //Position in a", "RECEIVER-ONLY:(*sortints.SortedInts).Union"},
 		{"insertion-sort-overwrite", "ints/int_sort.go", "\t\t\tdata[j], data[j-1] = data[j-1], data[j]\n\t\t}\n\t}\n}\n\n// siftDown", "\t\t\tdata[j] = data[j-1]\n\t\t}\n\t}\n}\n\n// siftDown", "SWAP:ints.insertionSort"},
 		{"pivot-swap-wrong-cell", "ints/int_sort.go", "\tdata[pivot], data[b-1] = data[b-1], data[pivot]\n\treturn b - 1, c", "\tdata[pivot], data[b-1] = data[b-1], data[lo]\n\t_ = pivot\n\treturn b - 1, c", "SWAP:ints.doPivot"},
+		{"setminus-returns-argument", "sortints/sorted_ints.go", "func SetMinus(a, b SortedInts) SortedInts {\n", "func SetMinus(a, b SortedInts) SortedInts {\n\tif len(b) == 0 {\n\t\treturn a\n\t}\n", "FRESH:sortints.SetMinus"},
+		{"union-returns-larger-argument", "sortints/sorted_ints.go", "func Union(a, b SortedInts) SortedInts {\n", "func Union(a, b SortedInts) SortedInts {\n\tif len(a) == 0 {\n\t\treturn b[:len(b):len(b)]\n\t}\n", "FRESH:sortints.Union"},
 		{"range-builds-in-global", "sortints/sorted_ints.go", "\ttmp := make([]int, 0, (end-start+step-1)/step)\n\tfor i := start; i < end; i += step {\n\t\ttmp = append(tmp, i)\n\t}\n\treturn tmp\n}", "\ttmp := rangeBuf[:0]\n\tfor i := start; i < end; i += step {\n\t\ttmp = append(tmp, i)\n\t}\n\treturn tmp\n}\n\nvar rangeBuf = make([]int, 0, 64)", "PURE:sortints.Range"},
 	}
 	mutants["C15"] = []mutant{
